@@ -45,7 +45,7 @@ def handle : List String → String
     match accepted with
     | some a => ",".intercalate ((lmtpStatuses a st).map (fun p => s!"{p.1}={okStr p.2}"))
     | none => "bad-op"
-  | ["pipe", spec, fails] =>
+  | "pipe" :: spec :: fails :: _place =>
     -- spec: <client>:<eff>+<eff>,... ; the target reports one status per effective recipient in
     -- AddRcpt order; the collector translates through OriginalRcpts (later entries overwrite).
     let failIds := if fails == "-" then [] else (fails.splitOn ",").filterMap String.toNat?
